@@ -217,10 +217,17 @@ func runFamily(c *vh.Ctx, fam *family) {
 			flavorCase(c, fam, vs, &Tree{Fields: []*TField{{Num: mapf.Number(), kind: "m", Map: []TEntry{{K: TVal{Num: 1}, V: TVal{Num: 0x7fa00000}}}}}}, "snan-corpus")
 		}
 	}
-	per := c.N(8, 300)
+	// deterministic coverage of every field in every voice: every explicit-presence field present with its
+	// zero value; every field populated with non-zero values (one member per oneof)
+	for _, which := range []string{"all-zero-present", "all-populated", "all-populated-other-oneof-members"} {
+		src := open.dt.New()
+		populateAll(c, src, which, 0)
+		flavorCase(c, fam, vs, treeOf(src), which)
+	}
+	per := c.N(4, 300)
 	big := open.mt.Descriptor().Fields().Len() > 40
 	if big {
-		per = c.N(24, 1500)
+		per = c.N(12, 1500)
 	}
 	for it := 0; it < per && !c.Failed(); it++ {
 		stream := "random"
@@ -239,6 +246,105 @@ func runFamily(c *vh.Ctx, fam *family) {
 			injectSNaN(c, open.mt.Descriptor(), t, open.extFinder())
 		}
 		flavorCase(c, fam, vs, t, stream)
+	}
+}
+
+// populateAll fills every field of m deterministically (depth-limited).
+//   all-zero-present: every singular field with explicit presence is present with the zero value / empty
+//                     bytes / empty submessage (first member of each oneof)
+//   all-populated:    every field non-zero; lists and maps with two elements; first member of each oneof
+//   all-populated-other-oneof-members: same, last member of each oneof
+func populateAll(c *vh.Ctx, m protoreflect.Message, which string, depth int) {
+	fds := m.Descriptor().Fields()
+	zero := which == "all-zero-present"
+	for i := 0; i < fds.Len(); i++ {
+		fd := fds.Get(i)
+		if od := fd.ContainingOneof(); od != nil && !od.IsSynthetic() {
+			pick := od.Fields().Get(0)
+			if which == "all-populated-other-oneof-members" {
+				pick = od.Fields().Get(od.Fields().Len() - 1)
+			}
+			if pick.Number() != fd.Number() {
+				continue
+			}
+		}
+		val := func(fd protoreflect.FieldDescriptor, k int) protoreflect.Value {
+			switch fd.Kind() {
+			case protoreflect.BoolKind:
+				return protoreflect.ValueOfBool(!zero)
+			case protoreflect.StringKind:
+				if zero {
+					return protoreflect.ValueOfString("")
+				}
+				return protoreflect.ValueOfString(fmt.Sprintf("s%d", k))
+			case protoreflect.BytesKind:
+				if zero {
+					return protoreflect.ValueOfBytes([]byte{})
+				}
+				return protoreflect.ValueOfBytes([]byte{byte(k), 0xff})
+			case protoreflect.EnumKind:
+				if zero {
+					return protoreflect.ValueOfEnum(0)
+				}
+				vs := fd.Enum().Values()
+				return protoreflect.ValueOfEnum(vs.Get(vs.Len() - 1).Number())
+			}
+			if zero {
+				return pbValue(fd, TVal{Num: 0})
+			}
+			if fd.Kind() == protoreflect.FloatKind {
+				return pbValue(fd, TVal{Num: uint64(0x3fc00000 + k)})
+			}
+			if fd.Kind() == protoreflect.DoubleKind {
+				return pbValue(fd, TVal{Num: uint64(0x3ff8000000000000 + uint64(k))})
+			}
+			return pbValue(fd, TVal{Num: uint64(int64(-3 + 2*k*int(fd.Number()%7+1)))})
+		}
+		switch {
+		case fd.IsMap():
+			if zero {
+				continue
+			}
+			mp := m.Mutable(fd).Map()
+			for k := 1; k <= 2; k++ {
+				key := val(fd.MapKey(), k).MapKey()
+				if fd.MapValue().Message() != nil {
+					v := mp.NewValue()
+					if depth < 1 {
+						populateAll(c, v.Message(), which, depth+1)
+					}
+					mp.Set(key, v)
+				} else {
+					mp.Set(key, val(fd.MapValue(), k))
+				}
+			}
+		case fd.IsList():
+			if zero {
+				continue
+			}
+			l := m.Mutable(fd).List()
+			for k := 1; k <= 2; k++ {
+				if fd.Message() != nil {
+					e := l.NewElement()
+					if depth < 1 {
+						populateAll(c, e.Message(), which, depth+1)
+					}
+					l.Append(e)
+				} else {
+					l.Append(val(fd, k))
+				}
+			}
+		case fd.Message() != nil:
+			sub := m.Mutable(fd).Message()
+			if depth < 1 {
+				populateAll(c, sub, which, depth+1)
+			}
+		default:
+			if zero && !fd.HasPresence() {
+				continue
+			}
+			m.Set(fd, val(fd, 1))
+		}
 	}
 }
 
